@@ -111,6 +111,7 @@ var (
 )
 
 type enumerator struct {
+	pm   int
 	c    *fw.Ctx
 	idx  int64
 	mine int64
@@ -129,7 +130,7 @@ func (e *enumerator) tree(build func() *Node) bool {
 		return false
 	}
 	root := build()
-	checkTree(e.c, root)
+	checkTree(e.c, root, e.pm)
 	if nontrivial(root) {
 		e.c.NontrivialN(1)
 	}
@@ -311,6 +312,41 @@ func run(c *fw.Ctx) {
 		c.Count("family_FA_complete", 1)
 	}
 	fa()
+	// FP: pre-state dimension.  Root (every outcome x effect) alone and with one child (full
+	// product), run after committed set-up + uncommitted earlier effects of the same block;
+	// thorough adds the depth-3 chains with the effect in the deepest frame
+	fp := func() {
+		defer func() { en.pm = preNone }()
+		for pm := preCommitted; pm < nPre; pm++ {
+			en.pm = pm
+			per := 1 + nf
+			total := int64(len(roots)) * per
+			if c.Thorough() {
+				total += 4 * int64(len(ko)) * nf
+			}
+			for t := int64(0); t < total; t++ {
+				tt := t
+				if !en.tree(func() *Node {
+					if tt < int64(len(roots))*per {
+						r, x := roots[tt/per], tt%per
+						if x == 0 {
+							return mk(r)
+						}
+						return mk(r, mk(full[x-1]))
+					}
+					tt -= int64(len(roots)) * per
+					z := full[tt%nf]
+					tt /= nf
+					return mk(plainRoots[tt%4], mk(ko[tt/4], mk(z)))
+				}) {
+					c.Cap("frame-trees: family FP not finished (time)")
+					return
+				}
+			}
+		}
+		c.Count("family_FP_complete", 1)
+	}
+	fp()
 	rootOut := []int{oReturn, oRevert, oInvalid, oOOG}
 	if c.Thorough() {
 		f1()
@@ -348,7 +384,7 @@ func replay(c *fw.Ctx, raw json.RawMessage) {
 		if err := json.Unmarshal(raw, &tc); err != nil {
 			panic(err)
 		}
-		checkTree(c, tc.Tree)
+		checkTree(c, tc.Tree, tc.Pre)
 	case "txs":
 		var tc txCase
 		if err := json.Unmarshal(raw, &tc); err != nil {
